@@ -53,7 +53,9 @@ def main():
                 rc, out = sh(["git", "-C", f"{tmp}/repo", "apply", f"{VERIF}/seeded/{sid}/patch.diff"])
                 if rc != 0:
                     print(out); print(f"HARNESS-ERROR: {sid}/patch.diff does not apply to /repo HEAD"); return 2
-                for prof in ("checked", "shipped", "dev"):
+                # the other two profiles are only needed by the limits scenario
+                profs = ("checked", "shipped", "dev") if (run_all or prop == "C20") else ("checked",)
+                for prof in profs:
                     rc, out = sh(["cargo", "build", "--offline", "--profile", prof], cwd=f"{tmp}/sim", env=env)
                     if rc != 0:
                         print(out[-3000:]); print(f"HARNESS-ERROR: build failed with {sid} applied"); return 2
